@@ -258,8 +258,9 @@ def const_str(repo: Repo, fi: FuncInfo, e: ast.AST) -> str | None:
     return fold(repo, fi.module, e, fi)
 
 
-def copy_prop(fi: FuncInfo):
-    """Substitution for `to_formula`: a local bound exactly once to a boolean-valued expression stands for that expression."""
+def copy_prop(fi: FuncInfo, keep=None):
+    """Substitution for `to_formula`: a local bound exactly once to a boolean-valued expression stands for that expression, and a call
+    of a private boolean helper stands for the helper's body (core/inline.py); `keep` names helpers that stay atoms."""
     single: dict[str, ast.expr] = {}
     counts: dict[str, int] = {}
     if isinstance(fi.node, ast.Lambda):
@@ -270,22 +271,33 @@ def copy_prop(fi: FuncInfo):
         if isinstance(n, ast.Assign) and len(n.targets) == 1 and isinstance(n.targets[0], ast.Name):
             single[n.targets[0].id] = n.value
     params = set(fi.param_names)
+    helper = bool_inliner(fi.module.repo).subst(fi, 0, keep)  # type: ignore[attr-defined]
 
     def subst(e: ast.expr):
         if isinstance(e, ast.Name) and e.id in single and counts.get(e.id) == 1 and e.id not in params:
             v = single[e.id]
             if isinstance(v, (ast.Call, ast.Compare, ast.BoolOp, ast.UnaryOp)):
                 return to_formula(v, subst)
-        return None
+        return helper(e)
 
     return subst
 
 
-def guard_formula(fi: FuncInfo, node: ast.AST) -> Formula:
+def bool_inliner(repo: Repo):
+    """Inliner of private boolean helpers (core/inline.py); one per repository."""
+    from core.inline import BoolInliner
+
+    key = ("boolinl", id(repo))
+    if key not in _cache:
+        _cache[key] = BoolInliner(repo, types_of(repo))
+    return _cache[key]
+
+
+def guard_formula(fi: FuncInfo, node: ast.AST, keep=None) -> Formula:
     """Path condition of `node` as a formula, with single-assignment boolean locals replaced by their definitions."""
-    return conds_formula(conds(fi, node), copy_prop(fi))
+    return conds_formula(conds(fi, node), copy_prop(fi, keep))
 
 
-def truth(fi: FuncInfo, text: str) -> Formula:
+def truth(fi: FuncInfo, text: str | ast.expr, keep=None) -> Formula:
     """Formula of `text` (an expression over the function's variables) with the same copy propagation as guard_formula."""
-    return to_formula(ast.parse(text, mode="eval").body, copy_prop(fi))
+    return to_formula(ast.parse(text, mode="eval").body if isinstance(text, str) else text, copy_prop(fi, keep))
